@@ -19,6 +19,8 @@ RULE = (
     'Generated workflow (C01 domain plus runahead limit P0-P4 and an optional '
     'stop-after cycle point; in a third of the cases 1-2 tasks have execution '
     'retry delays of PT10M/PT1H on the virtual clock and fail once or more), '
+    'in a quarter of the cases the default queue is limited to 1-2 and the '
+    'schedule holds 1-2 reload commands (definition unchanged); '
     'outcome assignments that include required-'
     'success failures and omitted required custom outputs, schedules of <=40 '
     'steps with delayed message delivery, then a fair drain.  Oracle on the '
@@ -41,7 +43,9 @@ ASSUMPTIONS = [
     '(an undelivered message belongs to a task that is still active).',
     '"Never indefinitely" is decided as: at quiescence of the fair drain '
     '(25 idle iterations with nothing pending); cap hit = inconclusive.',
-    'No user xtriggers or queue limits in this profile (a retry delay is '
+    'No user xtriggers in this profile; queue limits only on the default '
+    'queue (at quiescence every job has finished, so a queued ready task has '
+    'a free slot) (a retry delay is '
     'held by cylc as a wall-clock xtrigger on the task).',
 ]
 
@@ -76,6 +80,13 @@ def cases(draw):
                         for _ in range(draw(st.integers(1, n + 1)))
                     ] + [{'final': None}]
     sched = draw(schedules(40))
+    if draw(st.integers(0, 3)) == 0:
+        # a limited default queue and reloads (definition unchanged) at
+        # drawn moments: queued tasks must still get their turn afterwards
+        spec['extra']['queues'] = [
+            {'name': 'default', 'limit': draw(st.integers(1, 2))}]
+        for _ in range(draw(st.integers(1, 2))):
+            sched.insert(draw(st.integers(0, len(sched))), ['reload', 0])
     delays = draw(st.lists(st.sampled_from([0, 0, 0, 1, 2, 4]),
                            min_size=1, max_size=8))
     return {'spec': spec, 'outcomes': outcomes, 'schedule': sched,
